@@ -9,7 +9,7 @@ from .c08 import C_bytes
 LEVEL = "other"
 TECHNIQUE = "emission tables: each non-numeric ResponseData writer (block, &str, character, expression, quoted string, error item, Vec/ArrayVec lists) is interpreted by the FDAI engine on representative values - helpers and nested workspace writers analysed in place, Formatter calls as events - and everything it sends to the Formatter is compared with the IEEE 488.2 section 8.7 encoding computed independently, including the failure paths (prefix-only output, error returned); FDAI write tables for the 40 integer writers, real sentinels and bool; writer/reader agreement (first emitted byte class vs the accept matrix; radix prefix vs the lexer's radix table); enum response text by constant folding (shared with C20); custom error items with standard numbers keep their own text; typed echo tables (sa/rules/echotable.py, witness/echo): `Node::run` folded end to end on messages to a witness command that pulls one parameter of the type (`next_data::<T>()` / `next_optional_data`) and writes it back - lexer, dispatcher, Parameters, the conversion, the ResponseData writer and the formatter analysed in place, lexical-core's parsers / integer writer by contract - the answer compared with a reference written from the property's statement: string / block / character / expression data read and written back (quotes doubled, block header stating the payload length); the decimal text of MIN / MAX of every integer type folded through the type's own reader"
 LEVEL_TEXT = "For strings, blocks (payload lengths across 9/10, 99/100, 999/1000; the 9-digit limit observed by substituting the length writer), character/expression data, error items (standard and custom codes, with and without extended text, embedded quotes, non-ASCII text) and lists of 0..5 elements the complete output of the writer is computed from its MIR and must equal the reference encoding; every path on which a Formatter call fails must have written a prefix of it and return the error. For numbers: which lexical-core writer produces the digits (instantiated at the value's own type, on the value itself), that the returned slice is what is pushed, buffer sizes, prefixes and sentinels as constants. For types that are also parameters the class of the first emitted byte is mapped through the lexer's dispatch to a token kind the type's own converter accepts."
-LEVEL_NOTE = "Not decided: the digit strings lexical-core produces (shortest round-trip is its contract) and round-trip equality over all values; finite floats are written with lower-case `e` and unsigned exponent as pinned by the existing tests. Trusted: rustc MIR, lexical-core write contracts, FDAI models."
+LEVEL_NOTE = "Not decided: the digit strings lexical-core produces (its contract, audited once against the pinned crate: every finite value is written in a form that reads back to the same bits except negative zero, whose sign it drops - the float writers are therefore folded on values of each class, with a row for negative zero that demands the sign in front of the digits, F24) and round-trip equality over all values; finite floats are written with lower-case `e` and unsigned exponent as pinned by the existing tests. Trusted: rustc MIR, lexical-core write contracts, FDAI models."
 
 RD = "parser::response::ResponseData"
 DIGITS = {"u8": 3, "i8": 4, "u16": 5, "i16": 6, "u32": 10, "i32": 11, "u64": 20, "i64": 20, "usize": 20, "isize": 20}
@@ -148,66 +148,63 @@ def run(R, tier):
             R.anchor_lost("R09.2", "ResponseData for %s" % fty)
             continue
         b = bs[0]
-        ps = run_fmt(eng, b, SymV("value", "value"))
-        table = {}
-        good = bool(ps)
-        for p in ps:
-            nan = p.assumed_ret("is_nan", 0)
-            inf = p.assumed_ret("is_infinite", 0)
-            neg = p.assumed_ret("is_sign_negative", 0)
-            if p.assumed_ret("is_sign_positive", 0) is not None:
-                neg = not p.assumed_ret("is_sign_positive", 0)
-            ws = writes(p)
-            if len(ws) != 1 or ws[0][0] not in ("push_str", "push_ascii"):
-                good = False
-                continue
-            lit = C_bytes(ws[0][1])
-            if nan is True:
-                table["nan"] = lit
-            elif inf is True:
-                table["-inf" if neg else "+inf"] = lit
-            elif nan is False and inf is False:
-                w = p.call("write")
-                g = ((w.extra or {}).get("gargs") or ()) if w else ()
-                table["finite"] = "write" if (w is not None and tuple(g[:1]) == (fty,) and w.args[0] == ("sym", "value", "value") and CB.ret_of(ws[0][1], "write")) else "bad:%s" % p.describe()
+        # The writer is folded on values of each class (it may branch on is_nan / is_infinite, classify the value, compare it,
+        # use a table ...): NaN (both signs), +inf, -inf, negative zero, and finite values (+0, subnormal, ordinary, the
+        # sentinels' own magnitudes, the extremes). lexical-core's float writer is not modelled digit by digit; what is audited
+        # (probed on the pinned crate when F24 was triaged) is that it writes every finite value in a form that reads back to
+        # the same bits EXCEPT negative zero, which it writes as `0.0`: the sign of a negative zero must therefore be written
+        # by the library itself, in front of the digits.
+        import math
+        width = 32 if fty == "f32" else 64
+        eng_f = fdai.Engine(P, u, inline=lambda n, r: _resp_helpers(n, r), models=dict(M.FLOAT_MODELS), loop_limit=3, max_paths=8)
+        tiny = 1e-45 if width == 32 else 5e-324
+        big = 3.4028234663852886e38 if width == 32 else 1.7976931348623157e308
+        classes = {"nan": [math.nan, -math.nan], "+inf": [math.inf], "-inf": [-math.inf], "-0": [-0.0],
+                   "finite": [0.0, tiny, -tiny, 1.5, -2.25, 9.9e37, -9.9e37, 9.91e37, big, -big]}
+        table, good = {}, True
+        for cls_, vals in classes.items():
+            got = set()
+            for x in vals:
+                val = fdai.mk_float(x, width)
+                try:
+                    ps2 = run_fmt(eng_f, b, val)
+                except (fdai.TooManyPaths, RecursionError):
+                    ps2 = []
+                ps2 = [q for q in ps2 if complete(q)] if len(ps2) > 1 else ps2
+                if len(ps2) != 1:
+                    good = False
+                    got.add("undecided (%d paths)" % len(ps2))
+                    continue
+                q, ws = ps2[0], [w_ for w_ in writes(ps2[0]) if w_[0] in ("push_str", "push_ascii", "push_byte")]
+                if len(ws) != len(writes(q)) or not ws:
+                    got.add("bad:%s" % q.describe())
+                    continue
+                w = q.call("write")
+                parts = []
+                for nm_, a_, _e in ws:
+                    if w is not None and CB.ret_of(a_, "write"):
+                        g = (w.extra or {}).get("gargs") or ()
+                        arg_ok = tuple(g[:1]) == (fty,) and (w.args[0] == snapshot(val) or (x == 0 and w.args[0] == snapshot(fdai.mk_float(0.0, width))))
+                        parts.append("write" if arg_ok else "write(other value)")
+                    elif a_ is not None and a_[0] == "K":
+                        parts.append(bytes([a_[1]]))
+                    else:
+                        parts.append(C_bytes(a_) if a_ is not None and a_[0] != "sym" else "?")
+                # adjacent literal pieces are one literal
+                out_ = []
+                for p_ in parts:
+                    if isinstance(p_, bytes) and out_ and isinstance(out_[-1], bytes):
+                        out_[-1] += p_
+                    else:
+                        out_.append(p_)
+                got.add(out_[0] if len(out_) == 1 else tuple(out_))
+            if len(got) == 1:
+                table[cls_] = got.pop()
             else:
                 good = False
-        exp = {"nan": b"9.91E+37", "+inf": b"9.9E+37", "-inf": b"-9.9E+37", "finite": "write"}
-        if not (good and table == exp):
-            # the writer does not branch on is_nan / is_infinite / is_sign_negative in the shape read above (it may classify the
-            # value, compare it, use a table ...): decide the same table by folding the writer on values of each class
-            import math
-            width = 32 if fty == "f32" else 64
-            eng_f = fdai.Engine(P, u, inline=lambda n, r: _resp_helpers(n, r), models=dict(M.FLOAT_MODELS), loop_limit=3, max_paths=8)
-            tiny = 1e-45 if width == 32 else 5e-324
-            big = 3.4028234663852886e38 if width == 32 else 1.7976931348623157e308
-            classes = {"nan": [math.nan, -math.nan], "+inf": [math.inf], "-inf": [-math.inf], "finite": [0.0, -0.0, tiny, -tiny, 1.5, -2.25, 9.9e37, -9.91e37, big, -big]}
-            table2, good2 = {}, True
-            for cls_, vals in classes.items():
-                got = set()
-                for x in vals:
-                    val = fdai.mk_float(x, width)
-                    try:
-                        ps2 = [q for q in run_fmt(eng_f, b, val)]
-                    except (fdai.TooManyPaths, RecursionError):
-                        ps2 = []
-                    if len(ps2) != 1 or len(writes(ps2[0])) != 1 or writes(ps2[0])[0][0] not in ("push_str", "push_ascii"):
-                        good2 = False
-                        continue
-                    q, ws = ps2[0], writes(ps2[0])
-                    w = q.call("write")
-                    if w is None:
-                        got.add(C_bytes(ws[0][1]))
-                    else:
-                        g = (w.extra or {}).get("gargs") or ()
-                        got.add("write" if (tuple(g[:1]) == (fty,) and w.args[0] == snapshot(val) and CB.ret_of(ws[0][1], "write")) else "bad:%s" % q.describe())
-                if len(got) == 1:
-                    table2[cls_] = got.pop()
-                else:
-                    good2 = False
-            if (good2 and table2 == exp) or not table:
-                good, table = good2, table2
-        R.check(good and table == exp, "R09.2", fty, "NaN -> 9.91E+37, +inf -> 9.9E+37, -inf -> -9.9E+37 (SCPI-99 7.2.1.4/5); finite -> lexical_core::write::<%s>(*self)" % fty, "%s response table is %s, expected %s" % (fty, table, exp), where=b.span)
+                table[cls_] = sorted(map(str, got))
+        exp = {"nan": b"9.91E+37", "+inf": b"9.9E+37", "-inf": b"-9.9E+37", "-0": (b"-", "write"), "finite": "write"}
+        R.check(good and table == exp, "R09.2", fty, "NaN -> 9.91E+37, +inf -> 9.9E+37, -inf -> -9.9E+37 (SCPI-99 7.2.1.4/5); finite -> lexical_core::write::<%s>(*self), with the sign lexical-core drops from a negative zero written in front" % fty, "%s response table is %s, expected %s" % (fty, table, exp), where=b.span)
 
     # ---- R09.3 bool -------------------------------------------------------------------------------------------
     bs = fmt_impls(u, lambda s: s == "bool")
